@@ -212,15 +212,14 @@ def reference(prog, iso=True):
         elif name in ("c", "v", "y"):
             path.append((name, f))
         elif name == "h":
-            path.append(("h", []))
+            if not (path and path[-1][0] == "h"):      # ISO 8.5.2.1: closing an already closed subpath adds nothing
+                path.append(("h", []))
         elif name == "re":
             x, y, w, h = f
             path += [("m", [x, y]), ("l", [x + w, y]), ("l", [x + w, y + h]), ("l", [x, y + h]), ("h", [])]
         elif name in PAINT:
             if name in ("s", "b", "b*"):
-                if path and path[-1][0] == "h" and iso:
-                    FLAGS["doubleclose"] = True        # ISO: closing an already closed subpath adds nothing
-                else:
+                if not (path and path[-1][0] == "h"):  # ISO: closing an already closed subpath adds nothing
                     path.append(("h", []))
             if name != "n":
                 stroke = name in ("S", "s", "B", "B*", "b", "b*")
@@ -324,9 +323,7 @@ def correspondence(ctx):
                 if obs != exp:
                     if obs == expk:
                         # exactly the recorded deviations and nothing else
-                        fam = "paths-doubleclose" if FLAGS.get("doubleclose") and not FLAGS.get("csreset") else "paths-csreset"
-                        both = FLAGS.get("doubleclose") and FLAGS.get("csreset")
-                        for fm in (["paths-doubleclose", "paths-csreset"] if both else [fam]):
+                        for fm in ["paths-csreset"]:
                             ctx.violation(fm, {"pdf": pdf.hex(), "program": ig.ser_prog(prog).decode("latin-1")},
                                           "ISO shapes", "recorded deviation only", "known deviation")
                     else:
@@ -351,11 +348,6 @@ def known_match(finding, item):
 
 
 def confirm_known(ctx, finding):
-    if finding["family"] == "paths-doubleclose":
-        prog = [("v", 0), ("v", 0), ("v", 10), ("v", 10), ("op", "re"), ("op", "b")]
-        pdf, _ = ig.build_pdf(ig.Resources(), prog, None, split=False)
-        ev = [e for e in ig.impl_events(pdf, ig.Names()) if e[0] == 1]
-        return bool(ev) and ev[0][1] != 1
     prog = [("v", Fr(1, 2)), ("op", "g"), ("v", Nm("DeviceRGB")), ("op", "cs"), ("v", 0), ("v", 0), ("op", "m"),
             ("v", 10), ("v", 10), ("op", "l"), ("op", "f")]
     pdf, _ = ig.build_pdf(ig.Resources(), prog, None, split=False)
